@@ -38,6 +38,25 @@ def _install():
                 raise Boom()
         dict.__init__(self, *a, **kw)
     tokens.Token.__init__ = init
+    orig_getattr = tokens.Token.__getattr__
+
+    def getattr_(self, key, _orig=orig_getattr):
+        if ARM["site"] == "getattr":
+            ARM["n"] += 1
+            if ARM["n"] == ARM["k"]:
+                raise Boom()
+        return _orig(self, key)
+    tokens.Token.__getattr__ = getattr_
+    from mwparserfromhell.parser.builder import Builder
+    orig_handle = Builder._handle_token
+
+    def handle(self, token, _orig=orig_handle):
+        if ARM["site"] == "build":
+            ARM["n"] += 1
+            if ARM["n"] == ARM["k"]:
+                raise Boom()
+        return _orig(self, token)
+    Builder._handle_token = handle
     for meth in ("_push", "_emit_text", "_pop", "_emit"):
         orig = getattr(Tokenizer, meth)
 
@@ -103,7 +122,12 @@ def one_history(seed):
         if rng.random() < 0.6:
             k = rng.randint(1, 10) if not deep else rng.randint(1, 120)
             outcome = None
-            site = rng.choice(["_push", "_emit_text", "_pop", "_emit"]) if target == "py-method" else "token"
+            if target == "py-method":
+                site = rng.choice(["_push", "_emit_text", "_pop", "_emit"])
+            elif target == "parser":
+                site = rng.choice(["token", "build", "build", "getattr"])      # inside the tokenizer, inside the Builder, in an attribute read
+            else:
+                site = rng.choice(["token", "token", "getattr"])
             _arm(site, k)
             try:
                 try:
@@ -120,7 +144,7 @@ def one_history(seed):
                 # the exception raised inside the call did not come out of it: the call went on after it (its
                 # result then depends on more than the input) or reported something else
                 return target, texts, "an exception raised at the %d-th %s of a call on %r was swallowed: the call %s" % (
-                    k, "token construction" if site == "token" else site, t,
+                    k, {"token": "token construction", "build": "Builder step", "getattr": "token attribute read"}.get(site, site), t,
                     "returned normally" if outcome == "completed" else "ended with " + outcome[4:]), True
             if outcome != "completed":
                 aborted += 1
@@ -174,8 +198,8 @@ def run(tier, seed):
                 open(os.environ["C06_DEBUG"], "a").write(repr((s, target, texts, failure)) + "\n")
     c.cov["distinct_nontrivial"] = len(nontrivial)
     c.cov["rule"] = ("histories of 2-4 calls on one object (Python Tokenizer, CTokenizer, Parser) over the shared input generator; each call "
-                     "with probability 0.6 gets a BaseException injected at the k-th (1..10) token construction, or (Python tokenizer) at the "
-                     "k-th _push/_pop/_emit/_emit_text; after every call three further calls are compared with a fresh object's results and the "
+                     "with probability 0.6 gets a BaseException injected at the k-th (1..10; up to 120 in deep inputs) token construction, token attribute read or Builder step, or "
+                     "(Python tokenizer) at the k-th _push/_pop/_emit/_emit_text; after every call three further calls are compared with a fresh object's results and the "
                      "object is inspected for leftover frames; non-trivial = the history contains an aborted call followed by calls")
     c.cov["samples"] = [{"seed": s, "target": r[0], "texts": r[1]} for s, r in list(zip(seeds, res))[:3] if not (isinstance(r, tuple) and r[0] in ("CRASH", "TIMEOUT", "PYEXC"))]
     c.notes["histories_per_target"] = per_target
